@@ -310,6 +310,9 @@ CORPUS = [
        lambda L, a, b, c: {"tr": L.einsum("ii->i", a), "mm": L.einsum("ij,jk->ik", a, b), "bc": L.einsum("ij,ij->ij", a, c),
                            "sum": L.einsum("ij->", b), "outer": L.einsum("i,j->ij", a[0], b[1]),
                            "three": L.einsum("ij,jk,ik->i", a, b, b),
+                           # summation indices that first appear in different operands
+                           "two_red": L.einsum("ij,kl->ik", a, b), "outer_sum": L.einsum("i,j->", a[0], b[1]),
+                           "chain4": L.einsum("ij,jk,kl,lm->im", a, a, b, b.T),
                            # length-1 operand first / second on a *contracted* index (legal broadcasting)
                            "bc_contract": L.einsum("ij,jk->ik", c, b), "bc_contract2": L.einsum("jk,ij->ik", b, c)},
        tags=("reduction", "einsum")),
